@@ -405,7 +405,7 @@ def run_waiter_chain(wsx, events):
 
         async def co(n):
             await gate(n)
-            if n in nxt:
+            if n in nxt and not gate(nxt[n]).done():       # (the same awaitable may occur at several places of the structure)
                 gate(nxt[n]).set_result(None)
             return vals[n]
 
